@@ -145,6 +145,105 @@ func kvModel() porcupine.Model {
 	return nd.ToModel()
 }
 
+// aoKey is the key that only ever receives appends and reads.
+const aoKey = 4
+
+// aoTokens splits the value of the append-only key into its tokens.
+func aoTokens(v string) []string {
+	if v == "" {
+		return nil
+	}
+	return strings.Split(strings.TrimPrefix(v, ","), ",")
+}
+
+// appendOnlyMonitor decides the sub-history of the append-only key in
+// polynomial time, independently of the search: tokens are unique and nothing
+// is ever removed, so every successful read names exactly the appends it
+// observed and their order. It returns "" or a description of the first
+// anomaly found. Each rule follows from linearizability of an append-only list:
+//
+//	phantom     a read contains a token of no append invoked before the read returned
+//	fork        two reads are not prefix-comparable
+//	regress     a read invoked after another read returned is shorter than it
+//	stale       a read invoked after an append was acknowledged does not contain it
+//	twice       a token occurs twice in one read (request applied twice; reported
+//	            separately through the oplog, so skipped here)
+func appendOnlyMonitor(recs []rec) (kind, msg string, wit []rec) {
+	var reads, apps []rec
+	byTok := map[string]rec{}
+	for _, r := range recs {
+		if r.In.Key != aoKey {
+			continue
+		}
+		switch {
+		case r.In.Kind == "read" && r.Ret != 0 && !r.Out.Unknown && !r.Out.Failed:
+			reads = append(reads, r)
+		case r.In.Kind == "append":
+			apps = append(apps, r)
+			byTok[r.In.Arg] = r
+		}
+	}
+	sort.Slice(reads, func(i, j int) bool { return reads[i].Call < reads[j].Call })
+	lists := make([][]string, len(reads))
+	for i, r := range reads {
+		lists[i] = aoTokens(r.Out.Val)
+		seen := map[string]bool{}
+		for _, t := range lists[i] {
+			if seen[t] {
+				return "", "", nil // duplicate application: judged elsewhere
+			}
+			seen[t] = true
+			a, ok := byTok[t]
+			if !ok || a.Call > r.Ret {
+				return "phantom", fmt.Sprintf("read returned token %q which no append invoked before the read returned carries", t), []rec{r}
+			}
+		}
+	}
+	isPrefix := func(a, b []string) bool {
+		if len(a) > len(b) {
+			return false
+		}
+		for i := range a {
+			if a[i] != b[i] {
+				return false
+			}
+		}
+		return true
+	}
+	for i := range reads {
+		for j := i + 1; j < len(reads); j++ {
+			a, b := lists[i], lists[j]
+			if !isPrefix(a, b) && !isPrefix(b, a) {
+				return "fork", "two reads of the append-only key are not prefix-comparable", []rec{reads[i], reads[j]}
+			}
+			if reads[i].Ret < reads[j].Call && len(b) < len(a) {
+				return "regress", "a read invoked after another read had returned observed fewer appends than it", []rec{reads[i], reads[j]}
+			}
+		}
+	}
+	for _, a := range apps {
+		if a.Ret == 0 || a.Out.Unknown || a.Out.Failed || a.Out.Rows != 1 {
+			continue
+		}
+		for i, r := range reads {
+			if r.Call <= a.Ret {
+				continue
+			}
+			found := false
+			for _, t := range lists[i] {
+				if t == a.In.Arg {
+					found = true
+					break
+				}
+			}
+			if !found {
+				return "stale", fmt.Sprintf("append %q was acknowledged before the read was invoked, but the read does not contain it", a.In.Arg), []rec{a, r}
+			}
+		}
+	}
+	return "", "", nil
+}
+
 func toOps(recs []rec, end int64) []porcupine.Operation {
 	var ops []porcupine.Operation
 	for _, r := range recs {
@@ -169,7 +268,7 @@ func toOps(recs []rec, end int64) []porcupine.Operation {
 // ---- driver ----
 
 func run(c *vf.Ctx) {
-	c.Rule("history = 6-8 client goroutines pinned to the nodes of a live in-process 3- or 5-node cluster (real Stores, real HTTP, forwarding through the cluster client) issue unique-valued write / append / compare-and-set / linearizable and strong reads on 4 keys while a seeded nemesis partitions (majority/minority, isolate leader, one-way), heals, steps the leader down, restarts nodes, delays links and sleeps inside the linearizable-read path; the client-side history (call recorded before send, unknown outcomes left open to the end and allowed to apply or not) is checked per key by porcupine against a register/append/cas model; final per-node dumps must agree. non-trivial = at least one fault overlapped an open operation and at least two different leaders were seen; distinct by case number")
+	c.Rule("history = 6-8 client goroutines pinned to the nodes of a live in-process 3- or 5-node cluster (real Stores, real HTTP, forwarding through the cluster client) issue unique-valued write / append / compare-and-set / linearizable and strong reads on 4 keys while a seeded nemesis partitions (majority/minority, isolate leader, one-way), heals, steps the leader down, restarts nodes, delays links and sleeps inside the linearizable-read path; the client-side history (call recorded before send, unknown outcomes left open to the end and allowed to apply or not) is checked per key by porcupine against a register/append/cas model; a fifth key receives only appends and reads and is additionally decided by a linear-time monitor (phantom / fork / regress / stale read), and a write refused with 'leader not found' must never become visible (both decided before, and independently of, the search); every fourth history is directed: under lagging links a write is acknowledged, the leader isolated at once, applies slowed, and the node that next reports leadership immediately gets four concurrent linearizable reads (read probe), alternating with three writes in flight on a leader whose acknowledgements are slowed when it is isolated (write probe); final per-node dumps must agree. non-trivial = at least one fault overlapped an open operation and at least two different leaders were seen; distinct by case number")
 	c.Assume("node crash is emulated in-process (close without snapshot, reopen on the same directory); torn on-disk states belong to C03")
 	c.Assume("porcupine timeout 120 s per history => inconclusive")
 	if c.ReplayFile != "" {
@@ -313,6 +412,14 @@ func run(c *vf.Ctx) {
 			c.Violation("refused-write-took-effect", fmt.Sprintf("history %d (%d nodes, faults %v): %d write(s) answered 503 'leader not found' are visible in later reads", i, h.Nodes, h.Faults, len(ghost)),
 				map[string]any{"case": i, "faults": h.Faults, "witnesses": ghost})
 			continue
+		}
+		if !dupKeys[aoKey] {
+			if kind, msg, wit := appendOnlyMonitor(h.Recs); kind != "" {
+				c.Violation("append-only-key:"+kind, fmt.Sprintf("history %d (%d nodes, faults %v): %s", i, h.Nodes, h.Faults, msg),
+					map[string]any{"case": i, "faults": h.Faults, "witness": wit})
+				continue
+			}
+			c.Count("append_only_key_histories_monitored", 1)
 		}
 		ops := toOps(checked, end)
 		pt0 := time.Now()
@@ -506,9 +613,11 @@ func runHistory(c *vf.Ctx, caseNo int, dir string) (h histOut) {
 		h.SetupErr = "no leader"
 		return
 	}
-	const K = 4
+	const K = aoKey
 	stmts := []any{"CREATE TABLE kv (k INTEGER PRIMARY KEY, v TEXT NOT NULL)", "CREATE TABLE oplog (tok TEXT NOT NULL)"}
-	for k := 0; k < K; k++ {
+	// keys 0..K-1 take every kind of op; key K (aoKey) only appends and reads, so
+	// that its sub-history can also be decided by a linear-time monitor
+	for k := 0; k <= K; k++ {
 		stmts = append(stmts, fmt.Sprintf("INSERT INTO kv(k,v) VALUES(%d,'')", k))
 	}
 	if rr := cl.PostJSON(l, "/db/execute?transaction", stmts); rr.Err != nil || rr.Status != 200 {
@@ -566,17 +675,30 @@ func runHistory(c *vf.Ctx, caseNo int, dir string) (h histOut) {
 					old, _ := lastRead[key].Load().(string)
 					in = opIn{Kind: "cas", Key: key, Old: old, Arg: uniq}
 				}
+				if cr.IntN(5) == 0 {
+					// the append-only key
+					if in.Kind == "read" {
+						in.Key = aoKey
+					} else {
+						in = opIn{Kind: "append", Key: aoKey, Arg: uniq}
+					}
+				}
 				in.Node = node.Name
 				idx := recd.begin(ci, in)
 				out, returned := doOp(cl, node, in)
 				recd.end(idx, out, returned)
-				if in.Kind == "read" && returned && !out.Unknown {
-					lastRead[key].Store(out.Val)
+				if in.Kind == "read" && returned && !out.Unknown && in.Key < K {
+					lastRead[in.Key].Store(out.Val)
 				}
 				if out.Unknown || out.Failed || !returned {
 					time.Sleep(time.Duration(100+cr.IntN(200)) * time.Millisecond)
 				}
 				time.Sleep(time.Duration(cr.IntN(40)) * time.Millisecond)
+				if caseNo%4 == 0 {
+					// the directed history is longer: pace its background clients so that
+					// the per-key sub-histories stay within the checker's reach
+					time.Sleep(time.Duration(20+cr.IntN(40)) * time.Millisecond)
+				}
 			}
 		}(ci, cr)
 	}
@@ -622,9 +744,10 @@ func runHistory(c *vf.Ctx, caseNo int, dir string) (h histOut) {
 			// once (the followers hold the entry but have not learned that it is
 			// committed), applies are slow, and the moment another node reports
 			// leadership it gets several concurrent linearizable reads of that key.
-			key := r.IntN(K)
+			key := aoKey
 			probeSeq++
 			if probeSeq%2 == 0 {
+				key = r.IntN(K)
 				// Write probe (every second round): several writes are in flight on the
 				// leader - sent to the followers, acknowledgements still on their way
 				// back - when it vanishes. Their entries survive in the next leader's
@@ -809,7 +932,7 @@ func runHistory(c *vf.Ctx, caseNo int, dir string) (h histOut) {
 	fl := cl.WaitLeader(30 * time.Second)
 	if fl != nil {
 		leaders[fl.Name] = true
-		for k := 0; k < K; k++ {
+		for k := 0; k <= K; k++ {
 			in := opIn{Kind: "read", Key: k, Lvl: "strong", Node: fl.Name}
 			idx := recd.begin(99, in)
 			out, returned := doOp(cl, fl, in)
